@@ -1712,6 +1712,107 @@ mod observe {
     }
 }
 
+/// where the third-party formatter alone (no /repo code) hits a writer that accepts `limit` bytes,
+/// when fed the items `xs` in order: the plan given to the model for the streaming serializers
+fn observe_plan(kind: RioKind, xs: &[It], limit: usize) -> Plan {
+    use rio_api::formatter::{QuadsFormatter, TriplesFormatter};
+    use rio_api::model as rm;
+    struct W {
+        n: usize,
+        limit: usize,
+    }
+    impl Write for W {
+        fn write(&mut self, b: &[u8]) -> io::Result<usize> {
+            if b.is_empty() {
+                return Ok(0);
+            }
+            let room = self.limit - self.n;
+            if room == 0 {
+                return Err(io::Error::new(io::ErrorKind::BrokenPipe, "full"));
+            }
+            let k = room.min(b.len());
+            self.n += k;
+            Ok(k)
+        }
+        fn flush(&mut self) -> io::Result<()> {
+            Ok(())
+        }
+    }
+    let w = W { n: 0, limit };
+    let vals: Vec<String> = xs.iter().map(|x| x.val().to_string()).collect();
+    let gnames: Vec<String> = xs
+        .iter()
+        .map(|x| match x {
+            It::Q(_, g) if *g > 0 => format!("x:g{}", g),
+            _ => String::new(),
+        })
+        .collect();
+    let triple = |j: usize| rm::Triple {
+        subject: rm::NamedNode { iri: "x:s" }.into(),
+        predicate: rm::NamedNode { iri: "x:p" },
+        object: rm::Literal::Typed { value: &vals[j], datatype: rm::NamedNode { iri: XSD_INTEGER } }.into(),
+    };
+    match kind {
+        RioKind::Ttl => {
+            let mut f = rio_turtle::TurtleFormatter::new(w);
+            for j in 0..xs.len() {
+                if f.format(&triple(j)).is_err() {
+                    return Plan::Call(j);
+                }
+            }
+            if f.finish().is_err() { Plan::Finish } else { Plan::Never }
+        }
+        RioKind::Xml => {
+            let Ok(mut f) = rio_xml::RdfXmlFormatter::new(w) else { return Plan::New };
+            for j in 0..xs.len() {
+                if f.format(&triple(j)).is_err() {
+                    return Plan::Call(j);
+                }
+            }
+            if f.finish().is_err() { Plan::Finish } else { Plan::Never }
+        }
+        RioKind::Trig => {
+            let mut f = rio_turtle::TriGFormatter::new(w);
+            for j in 0..xs.len() {
+                let t = triple(j);
+                let q = rm::Quad {
+                    subject: t.subject,
+                    predicate: t.predicate,
+                    object: t.object,
+                    graph_name: if gnames[j].is_empty() { None } else { Some(rm::NamedNode { iri: &gnames[j] }.into()) },
+                };
+                if f.format(&q).is_err() {
+                    return Plan::Call(j);
+                }
+            }
+            if f.finish().is_err() { Plan::Finish } else { Plan::Never }
+        }
+    }
+}
+
+/// streaming-serializer consumers for the delivered items `xs` (no source fault assumed for the
+/// plan: a source fault only cuts the run short before the planned failure or not at all), with
+/// writer limits spread over the output
+fn rio_consumers(rng: &mut Rng, quads: bool, xs: &[It], payload: &str, n: usize) -> Vec<Cons> {
+    let kinds: &[RioKind] = if quads { &[RioKind::Trig] } else { &[RioKind::Ttl, RioKind::Xml] };
+    let mut v = vec![];
+    for _ in 0..n {
+        let kind = *rng.pick(kinds);
+        // total size by a dry run with a huge limit is not observable through Plan: probe by doubling
+        let mut hi = 64usize;
+        while observe_plan(kind, xs, hi) != Plan::Never && hi < 1 << 20 {
+            hi *= 2;
+        }
+        let limit = match rng.below(6) {
+            0 => 0,
+            1 => hi,
+            _ => rng.below(hi + 1),
+        };
+        v.push(Cons::Rio(kind, limit, payload.to_string(), observe_plan(kind, xs, limit)));
+    }
+    v
+}
+
 fn observe_doc(fmt: Fmt, doc: &str) -> Script {
     let data = Cursor::new(doc.as_bytes().to_vec());
     match fmt {
@@ -1866,6 +1967,10 @@ fn expect(src: &Src, chain: &[Adapter], cons: &Cons, obs: &Obs) -> Expect {
             max_pulled = t + 1;
             break;
         }
+    }
+    if matches!(cons, Cons::Ser(..) | Cons::Rio(..)) && log.len() == xs.len() && err.is_none() {
+        // the writer may have refused in `finish()`, i.e. after the source was legitimately exhausted
+        max_pulled = steps.len();
     }
     Expect { log, ret, val, fin, max_pulled }
 }
@@ -2090,6 +2195,8 @@ struct Emit<'a> {
     ctx: &'a mut GenCtx,
     /// position of the adapter to be followed by `.into_iter()` in the chains emitted next
     iter_at: Option<usize>,
+    /// flips between the two step-wise entry points (`try_for_some_item` / `try_for_some_triple|quad`)
+    flip: bool,
 }
 
 impl Emit<'_> {
@@ -2099,7 +2206,15 @@ impl Emit<'_> {
             render_src(src),
             render_chain(chain, self.iter_at),
             cons.render(),
-            if stepwise { "s" } else { "w" },
+            {
+                self.flip = !self.flip;
+                match (stepwise, cons) {
+                    (true, Cons::For) => "f",
+                    (true, _) if self.flip => "S",
+                    (true, _) => "s",
+                    _ => "w",
+                }
+            },
             extra
         );
         self.ctx.stats.bump(&format!("consumer.{}", cons.name()));
@@ -2152,6 +2267,10 @@ fn other_consumers(rng: &mut Rng, quads: bool, xs: &[It]) -> Vec<Cons> {
     v.push(Cons::Add(pre(rng)));
     v.push(Cons::Ins(pre(rng)));
     v.push(Cons::Rem(pre(rng)));
+    v.push(Cons::Hs);
+    v.push(Cons::Bs);
+    v.push(Cons::AddH(pre(rng)));
+    v.push(Cons::RemB(pre(rng)));
     v
 }
 
@@ -2184,14 +2303,19 @@ fn gen_iter_sample(e: &mut Emit, len: usize, depth: usize, small_budget: &mut us
     let payload = (e.ctx.rng.below(90) + 10).to_string();
     let sink_payload = (e.ctx.rng.below(90) + 100).to_string();
     let others = other_consumers(&mut e.ctx.rng, quads, &xs);
+    let rios = rio_consumers(&mut e.ctx.rng, quads, &xs, &sink_payload, 3);
     // (a) source fault at every position k (0 ..= len), recording closure, whole and step-wise;
-    //     plus one other consumer per position (rotating)
+    //     plus one other consumer and one streaming serializer per position (rotating)
     for k in 0..=items.len() {
         let src = with_fault(quads0, &items, k, &payload);
         e.case(&src, &chain, &Cons::Try(None, sink_payload.clone()), false, "", "source");
         e.case(&src, &chain, &Cons::Try(None, sink_payload.clone()), true, "", "source");
         let o = &others[(k + len) % others.len()];
         e.case(&src, &chain, o, false, "", "source");
+        e.case(&src, &chain, &rios[k % rios.len()], false, "", "source+writer");
+        if k % 2 == 0 {
+            e.case(&src, &chain, &Cons::For, true, "", "source");
+        }
     }
     // (b) sink fault on every delivered item j (0 ..= |xs|; j = |xs| is never reached)
     for j in 0..=xs.len() {
@@ -2209,8 +2333,12 @@ fn gen_iter_sample(e: &mut Emit, len: usize, depth: usize, small_budget: &mut us
     {
         let src = no_fault(quads0, &items);
         e.case(&src, &chain, &Cons::Try(None, sink_payload.clone()), false, "", "none");
+        e.case(&src, &chain, &Cons::For, true, "", "none");
         for o in &others {
             e.case(&src, &chain, o, false, "", "none");
+        }
+        for o in rio_consumers(&mut e.ctx.rng, quads, &xs, &sink_payload, 6) {
+            e.case(&src, &chain, &o, false, "", "sink.rio_writer");
         }
     }
     // (d) writer failing at every item boundary (and one byte around it)
@@ -2383,6 +2511,10 @@ fn gen_doc_sample(e: &mut Emit, fmt: Fmt, nstmt: usize, depth: usize) {
         let others = other_consumers(&mut e.ctx.rng, quads, &xs);
         let o = &others[(k + nstmt) % others.len()];
         e.case(&src, &chain, o, false, &extra, fault);
+        for o in rio_consumers(&mut e.ctx.rng, quads, &xs, &sink_payload, 1) {
+            e.case(&src, &chain, &o, false, &extra, "sink.rio_writer");
+        }
+        e.case(&src, &chain, &Cons::For, true, &extra, fault);
         // sink fault on every delivered item, in front of / inside / behind the failing statement
         if k == nstmt || k == nstmt / 2 {
             for j in 0..=xs.len() {
@@ -2444,6 +2576,11 @@ fn gen_chunked_sample(e: &mut Emit, len: usize, max_depth: usize) {
         e.iter_at = Some(at);
         let o = &others[(k + len) % others.len()];
         e.case(&src, &chain, o, false, "", "source.midchunk");
+        e.case(&src, &chain, &Cons::For, true, "", "source.midchunk");
+        let xs_k = chain_meaning(&chain, &delivered(&src).0);
+        for o in rio_consumers(&mut e.ctx.rng, quads, &xs_k, &sink_payload, 1) {
+            e.case(&src, &chain, &o, false, "", "source+writer");
+        }
     }
     // no source fault: sink fault on every delivered item, and every other consumer
     let src = Src::Chunk(quads0, chunk_script(&mut e.ctx.rng, &items, None, &payload));
@@ -2453,6 +2590,9 @@ fn gen_chunked_sample(e: &mut Emit, len: usize, max_depth: usize) {
     }
     for o in &others {
         e.case(&src, &chain, o, false, "", "none");
+    }
+    for o in rio_consumers(&mut e.ctx.rng, quads, &xs_all, &sink_payload, 3) {
+        e.case(&src, &chain, &o, false, "", "sink.rio_writer");
     }
     let total: usize = xs_all.iter().map(|x| ref_bytes(*x).len()).sum();
     let l = e.ctx.rng.range(0, total + 3);
@@ -2513,6 +2653,9 @@ fn gen_turtle_list_sample(e: &mut Emit, max_depth: usize) {
         let others = other_consumers(&mut e.ctx.rng, quads, &xs);
         let o = &others[bad % others.len()];
         e.case(&src, &chain, o, false, &extra, fault);
+        for o in rio_consumers(&mut e.ctx.rng, quads, &xs, &sink_payload, 1) {
+            e.case(&src, &chain, &o, false, &extra, "sink.rio_writer");
+        }
         if bad == total / 2 {
             for j in 0..=xs.len() {
                 e.case(&src, &chain, &Cons::Try(Some(j), sink_payload.clone()), false, &extra, "sink.closure");
@@ -2527,7 +2670,7 @@ pub fn generate(ctx: &mut GenCtx) {
         std::panic::set_hook(Box::new(|i| eprintln!("{}", i)));
     }
     let thorough = ctx.thorough;
-    let mut e = Emit { ctx, iter_at: None };
+    let mut e = Emit { ctx, iter_at: None, flip: false };
     let max_depth = if thorough { 5 } else { 3 };
     // one 16-bit graph costs ~0.35 s to pre-fill in a dev build
     let mut small_budget = if thorough { 500 } else { 36 };
